@@ -207,6 +207,18 @@ void putid(Bytes &b, const char *s)
 		b.push_back((uint8_t)s[i]);
 }
 
+// 16-bit fields: the natural value, small/odd values (0, 1, 4, 7, ...), or anything
+uint32_t pick16(Tape &t, uint32_t natural, unsigned wnat)
+{
+	static const uint32_t SMALL[] = { 0, 1, 2, 3, 4, 7, 8, 9, 12, 15, 16, 17, 24, 31, 32, 33, 255, 256, 0x7fff, 0x8000, 0xffff };
+	switch (t.weighted({ wnat, 2, 1 })) {
+	default:
+	case 0: return natural;
+	case 1: return SMALL[t.choose(sizeof SMALL / sizeof *SMALL)];
+	case 2: return t.choose(65536);
+	}
+}
+
 uint32_t pick32(Tape &t, uint32_t natural)
 {
 	switch (t.weighted({ 6, 2, 1, 1 })) {
@@ -243,11 +255,11 @@ Bytes structured(Tape &t, Ctx &c)
 	id(2);
 	put32(b, fmt_size);
 	put16(b, t.weighted({ 6, 1 }) == 0 ? (fmt_kind == 1 ? 3 : fmt_kind == 2 ? 0xfffe : 1) : t.choose(65536));
-	put16(b, t.weighted({ 8, 1 }) == 0 ? channels : t.choose(65536));
+	put16(b, pick16(t, channels, 8));
 	put32(b, pick32(t, rate));
 	put32(b, pick32(t, rate * channels * bytes));
-	put16(b, t.weighted({ 5, 2, 1 }) == 0 ? channels * bytes : t.flip() ? 0 : t.choose(65536)); // block_align 0 is interesting
-	put16(b, t.weighted({ 8, 1 }) == 0 ? bytes * 8 : t.choose(65536));
+	put16(b, t.weighted({ 5, 2, 1 }) == 0 ? channels * bytes : t.flip() ? 0 : pick16(t, channels * bytes, 1)); // block_align 0 is interesting
+	put16(b, pick16(t, bytes * 8, 6)); // sample widths below one byte are interesting too
 	if (fmt_size >= 18) {
 		put16(b, cb);
 		if (cb == 22) {
